@@ -29,6 +29,9 @@
  *   pubf <hex> <time>             publications file: parse, latest / nearest publication, certificate by id
  *   pubs <string>                 publication string: fromBase32, toBase32
  *   hmac <alg> <key-hex> <data-hex>
+ *   async <hash-hex> <level> <key-hex> <reply-stream-hex>   asynchronous signing service on a scripted socket: endpoint, one request, run until the
+ *                                 handle is back, its signature
+ *   ha <hash-hex> <level> <key-hex> <reply-stream-hex>      the same through the high-availability service with two sub-services
  */
 #include "common.h"
 #include <stddef.h>
@@ -73,6 +76,10 @@ static void v_free(void *p) { if (p) { v_live--; free(p); } }
 #undef malloc
 #undef calloc
 #undef free
+
+/* the asynchronous TCP client on a scripted socket and clock (as in exec_c13.c / exec_c07.c) */
+#define VERIF_SIM_ONLY 1
+#include "exec_c13.c"
 
 /* ---------------- helpers ---------------- */
 typedef struct {
@@ -431,11 +438,60 @@ cleanup:
 	return res;
 }
 
+static int su_async(Env *e) {
+	e->b[0] = unhex(e->w[0], &e->bl[0]); e->b[1] = unhex(e->w[3], &e->bl[1]);
+	if (KSI_DataHash_fromImprint(e->ctx, e->b[0], e->bl[0], &e->hsh) != KSI_OK) return 1;
+	set_key(e, e->w[2]);
+	KSI_CTX_setOption(e->ctx, KSI_OPT_AGGR_PDU_VER, (void *)(size_t)2);
+	return 0;
+}
+/* the asynchronous signing service: new, endpoint, one request, send, receive, the handle's signature; `nsvc` endpoints > 1: the
+ * high-availability service over that many sub-services (every one of them sees the same scripted socket) */
+static int run_async_n(Env *e, char *out, int nsvc) {
+	int res, k; KSI_AsyncService *as = NULL; KSI_AsyncHandle *h = NULL, *got = NULL, *o = NULL; KSI_DataHash *ref = NULL; size_t waiting = 0;
+	KSI_Signature *sig = NULL; unsigned char *ser = NULL; size_t sl = 0; static char rs[64], ss[64];
+	g_nconn = 0; g_now = 1000; g_poll_ret = 1; g_revents = POLLIN | POLLOUT; g_connect_ok = 1; g_spos = 0; g_slen = 0;
+	res = nsvc > 1 ? KSI_SigningHighAvailabilityService_new(e->ctx, &as) : KSI_SigningAsyncService_new(e->ctx, &as); if (res != KSI_OK) goto cleanup;
+	for (k = 0; k < nsvc; k++) {
+		char uri[64]; snprintf(uri, sizeof(uri), "ksi+tcp://sim%d.host:1234", k);
+		res = KSI_AsyncService_setEndpoint(as, uri, "anon", e->key); if (res != KSI_OK) goto cleanup;
+	}
+	res = KSI_AsyncService_setOption(as, KSI_ASYNC_OPT_REQUEST_CACHE_SIZE, (void *)(size_t)4); if (res != KSI_OK) goto cleanup;
+	ref = KSI_DataHash_ref(e->hsh);
+	res = KSI_AsyncSigningHandle_new(e->ctx, ref, strtoull(e->w[1], NULL, 10), &h); if (res != KSI_OK) goto cleanup;
+	ref = NULL;
+	res = KSI_AsyncService_addRequest(as, h); if (res != KSI_OK) goto cleanup;
+	h = NULL;
+	strcpy(rs, "p"); strcpy(ss, "-"); g_rp = rs; g_sp = ss; g_stream = e->b[1]; g_slen = 0;
+	res = KSI_AsyncService_run(as, &o, &waiting); if (res != KSI_OK) goto cleanup;
+	if (o != NULL) got = o;
+	for (k = 0; k < 4 && got == NULL; k++) {
+		strcpy(rs, "p"); strcpy(ss, "-"); g_rp = rs; g_sp = ss; g_stream = e->b[1]; g_slen = e->bl[1];
+		o = NULL;
+		res = KSI_AsyncService_run(as, &o, &waiting); if (res != KSI_OK) goto cleanup;
+		if (o != NULL) got = o;
+	}
+	if (got == NULL) { res = 9999; goto cleanup; }        /* the request never came back */
+	{ int st = -1, err = 0; KSI_AsyncHandle_getState(got, &st); KSI_AsyncHandle_getError(got, &err); if (st == KSI_ASYNC_STATE_ERROR) { res = err ? err : 9998; goto cleanup; } }
+	res = KSI_AsyncHandle_getSignature(got, &sig); if (res != KSI_OK) goto cleanup;
+	res = KSI_Signature_serialize(sig, &ser, &sl); if (res != KSI_OK) goto cleanup;
+	put_digest(out, fnv(FNV0, ser, sl), sl);
+cleanup:
+	if (res != KSI_OK && sig != NULL) snprintf(out, 64, "RESULT-WITH-ERROR");
+	KSI_free(ser); KSI_Signature_free(sig); KSI_AsyncHandle_free(got); KSI_AsyncHandle_free(h); KSI_DataHash_free(ref);
+	KSI_AsyncService_free(as);
+	for (k = 0; k < g_nconn; k++) free(g_conn[k]);
+	g_nconn = 0;
+	return res;
+}
+static int run_async(Env *e, char *out) { return run_async_n(e, out, 1); }
+static int run_ha(Env *e, char *out) { return run_async_n(e, out, 2); }
+
 static const struct op { const char *name; int minargs; int (*setup)(Env *); int (*run)(Env *, char *); } OPS[] = {
 	{ "lst", 1, su_none, run_lst }, { "tlvp", 1, su_blob, run_tlvp }, { "list", 1, su_none, run_list }, { "tlv", 1, su_blob, run_tlv }, { "el", 1, su_blob, run_el }, { "sig", 1, su_blob, run_sig },
 	{ "ver", 2, su_ver, run_ver }, { "areq", 3, su_areq, run_areq }, { "ereq", 3, su_ereq, run_ereq }, { "sign", 5, su_sign, run_sign },
 	{ "ext", 5, su_ext, run_ext }, { "tree", 3, su_none, run_tree }, { "build", 2, su_sig, run_build }, { "pubf", 2, su_blob, run_pubf },
-	{ "pubs", 1, su_none, run_pubs }, { "hmac", 3, su_hmac, run_hmac },
+	{ "pubs", 1, su_none, run_pubs }, { "hmac", 3, su_hmac, run_hmac }, { "async", 4, su_async, run_async }, { "ha", 4, su_async, run_ha },
 };
 
 /* one experiment: new context and inputs, the operation under the armed fault(s), the repeat, everything freed */
